@@ -219,6 +219,21 @@ theorem c02_tcp_direct_bytes {s : TcpSt} {last : Sent}
       .accept last.ttl s.cfg.target true last.time :=
   tcp_direct_complete hl htg h1 h2 h3 hff hfr b1 b2 b3 b4 b5 hfl hlast hack hsize
 
+/-- SACK, bytes, direct form: an ACK carrying NOP NOP SACK(one block) whose left edge is ISN + t
+    (every ISN, wrap-around included); other option layouts: `c02_sack_direct_view` + the catalogue run -/
+theorem c02_sack_direct_bytes {s : SackSt} {t : Nat} {p : Sent}
+    {otos oid ff ottl ock seq ack fl win ck urg right : Nat} {pl : Bytes}
+    (hl : s.cfg.localA.length = 4) (htg : s.cfg.target.length = 4)
+    (h1 : otos < 256) (h2 : oid < 65536) (h3 : ottl < 256) (hff : ff < 65536) (hfr : ff % 16384 = 0)
+    (b1 : s.cfg.tport < 65536) (b2 : s.cfg.lport < 65536) (b3 : seq < 4294967296) (b4 : ack < 4294967296) (b5 : fl < 256)
+    (hfl : fl % 2 = 0 ∧ (fl / 2) % 2 = 0 ∧ (fl / 4) % 2 = 0)
+    (b6 : s.cfg.isn < 4294967296) (b7 : t < 4294967296) (b8 : right < 4294967296)
+    (hsize : 52 + pl.length ≤ 1024) (hlk : sackLookup s t = some p) :
+    sackRecv s (rawHdr4 otos (52 + pl.length) oid ff ottl 6 ock s.cfg.target s.cfg.localA ++
+        (rawTcpSack s.cfg.tport s.cfg.lport seq ack fl win ck urg ((s.cfg.isn + t) % 4294967296) right ++ pl)) =
+      .accept t s.cfg.target true p.time :=
+  sack_direct_complete hl htg h1 h2 h3 hff hfr b1 b2 b3 b4 b5 hfl b6 b7 b8 hsize hlk
+
 /-- non-vacuity: a SYN-ACK with DF, ECE and a payload byte acknowledging the last probe (seq 0xffffffff:
     the acknowledgement number wraps to 0) -/
 example :
@@ -244,6 +259,7 @@ example :
 #print axioms c02_sack_te_bytes
 #print axioms c02_icmp4_echo_bytes
 #print axioms c02_tcp_direct_bytes
+#print axioms c02_sack_direct_bytes
 #print axioms c02_icmp4_te_view
 #print axioms c02_icmp4_echo_view
 #print axioms c02_udp4_view
